@@ -41,7 +41,7 @@ CHECKS = {
    "random entry vector: oracles are shape independent; product quantiser trained at 3 points (HTTP layer minimum is 1000); vectors from small pools",
    "exhaustive enumeration of write histories of the real code vs reference (safety + brute-force k-NN in the exact regimes)", "DESIGN.md §4 C03"),
  "C10": (True, "seqx", "model_checking",
-   "Every write history up to depth 4 (thorough 5) over 12 graph-hurting batches, and up to depth 2 (thorough 3) from 40 mutually equidistant points where the degree bound binds, for alpha {1.1,1.5} x degreeBound {32,64}, warm and reopened; after every batch the bucket dump is checked for node/vector/edge well-formedness, degree bound, max-id, point-store bijection and free-list disjointness, plus a full-window search. One alphabet per parameter set has three batches whose commit fails after the graph work is done.",
+   "Every write history up to depth 4 (thorough 5) over 12 graph-hurting batches, and up to depth 2 (thorough 3) from 40 mutually equidistant points where the degree bound binds, for alpha {1.1,1.5} x degreeBound {32,64}, warm and reopened; after every batch the bucket dump is checked for node/vector/edge well-formedness, degree bound, max-id, point-store bijection and free-list disjointness, plus a full-window search. One alphabet per parameter set has three batches whose commit fails after the graph work is done. Two specs put the index on a nested property path (m.v) that updates reach through the parent object.",
    "duplicate edges not flagged; batches outside the alphabet",
    "exhaustive enumeration of write histories of the real code with a structural invariant on the persisted state", "DESIGN.md §4 C10"),
  "C06": (True, "seqx-input", "model_checking",
@@ -57,11 +57,11 @@ CHECKS = {
    "storage is a stand-in (per-cache committed version + per-shard single-writer token); sequentially consistent interleavings of the shimmed operations; usage protocol of the shard (each With returns before Commit)",
    "stateless DFS over schedules of the real code under a controlled scheduler, iterative preemption bounding", "DESIGN.md §4 C11"),
  "C07": (True, "faultx", "fault_enumeration",
-   "For 26 (start state x batch) cases incl. the validation rejections, a 10000-point batch and an index whose construction fails: a counting run, then one run per fault point - every (bucket, kind in Put/Delete/ForEach/Scan/BucketOpen/TxBegin, ordinal) the batch issues (670 points) failing exactly that operation through the storage proxy installed with the verif accessor hook - and a run taking a crash image of the database file at every storage operation, at function-return and after commit (1203 images) - and one run per storage operation, reads included (1039 points, 143 of them issued by the calling goroutine), in which the process dies by a panic raised at that operation on the goroutine that issued the batch, so that the deferred functions between the operation and the caller run before the file is inspected. Failed call: observation battery + raw bucket digest identical to before on the running instance and after reopen; successful call: equals the reference model; images before commit and the file left by a death by panic = state before, after commit = model after; storage use after transaction end is recorded instead of crashing.",
+   "For 26 (start state x batch) cases incl. the validation rejections, a 10000-point batch and an index whose construction fails: a counting run, then one run per fault point - every (bucket, kind in Put/Delete/ForEach/Scan/BucketOpen/TxBegin, ordinal) the batch issues (670 points) failing exactly that operation through the storage proxy installed with the verif accessor hook - and a run taking a crash image of the database file at every storage operation, at function-return and after commit (1203 images) - and one run per storage operation, reads included (1039 points, 143 of them issued by the calling goroutine), in which the process dies by a panic raised at that operation on the goroutine that issued the batch, so that the deferred functions between the operation and the caller run before the file is inspected. Failed call: observation battery + raw bucket digest identical to before on the running instance and after reopen; successful call: equals the reference model; images before commit and the file left by a death by panic = state before, after commit = model after; storage use after transaction end is recorded instead of crashing. Four cases run on a schema with a learned binary and a product quantiser whose trigger threshold the batch crosses; a call that reports success although the proxy handed it an injected error is a violation in its own right (storage-error-swallowed:<kind>@<call site>).",
    "Get cannot fail in the storage API; torn writes inside bbolt's own commit are trusted; goroutine interleavings inside a batch are those the real scheduler produced",
    "exhaustive enumeration of fault points and crash points of a write history on the real write path", "DESIGN.md §4 C07"),
  "C12": (True, "schedx", "model_checking",
-   "Stateless preemption-bounded search over all interleavings of requests, collection deletion and the idle timer on the real ShardManager with real bbolt shard files: shardmgr.go is built with its sync and time imports redirected to scheduler shims (cooperative locks; a virtual timer whose firing is a controller transition enabled at every scheduling point while armed); channel operations stay real and quiescence is a stop-the-world goroutine snapshot. Quick: 7 two-thread programs with <=1 preemption, 3 three-thread programs with 0 (81k complete executions); thorough: 28 programs, bounds 0..2. Invariants: callback only on a usable handle or a clean error, one descriptor per shard file, files present during a request, no deadlock, final probe loads every shard. Programs also include a shard whose database file cannot be opened until repaired, and an idle-unload backup that returns an error.",
+   "Stateless preemption-bounded search over all interleavings of requests, collection deletion and the idle timer on the real ShardManager with real bbolt shard files: shardmgr.go is built with its sync and time imports redirected to scheduler shims (cooperative locks; a virtual timer whose firing is a controller transition enabled at every scheduling point while armed); channel operations stay real and quiescence is a stop-the-world goroutine snapshot. Quick: 7 two-thread programs with <=1 preemption, 3 three-thread programs with 0 (81k complete executions); thorough: 28 programs, bounds 0..2. Invariants: callback only on a usable handle or a clean error, one descriptor per shard file, files present during a request, no deadlock, final probe loads every shard. Programs also include a shard whose database file cannot be opened until repaired, and an idle-unload backup that returns an error. One program has a second collection of the same user whose id extends the deleted one's.",
    "timer fires only at quiescent points (cleanup goroutine in its select); Go>=1.23 timer contract; sequentially consistent lock shims",
    "stateless DFS over schedules of the real code under a controlled scheduler with a virtual timer, iterative preemption bounding", "DESIGN.md §4 C12"),
  "C09": (True, "schedx", "model_checking",
@@ -69,15 +69,15 @@ CHECKS = {
    "the writer's individual storage operations are not scheduling points; one cached index in the schema; map-iteration order inside the code under test makes some prefixes unreplayable (retried, counted, never a verdict) so quick runs are usually not marked exhaustive",
    "stateless DFS over schedules of the real code under a controlled scheduler + storage proxy, iterative preemption bounding", "DESIGN.md §4 C09"),
  "C15": (True, "seqx", "model_checking",
-   "(a) exhaustive enumeration of the argument space of the real distributePoints through the verif export hook (0..3 existing shards x fill levels at the limits x batches of 0..6 points of two sizes x count/size limits x shard-creation failure; 567k cases) against the statement (contiguous disjoint covering ranges, no limit exceeded, fresh shards exactly for the overflow) and a greedy reference; (b) breadth-first search, de-duplicated on shard fill levels, to depth 5 (thorough 7) over insert/create/delete request histories on a real node for 4 limit/quota configurations: totals, per-shard maxima, quota refusals without side effects, each stored point found exactly once.",
+   "(a) exhaustive enumeration of the argument space of the real distributePoints through the verif export hook (0..3 existing shards x fill levels at the limits x batches of 0..6 points of two sizes x count/size limits x shard-creation failure; 567k cases) against the statement (contiguous disjoint covering ranges, no limit exceeded, fresh shards exactly for the overflow) and a greedy reference; (b) breadth-first search, de-duplicated on shard fill levels, to depth 5 (thorough 7) over insert/create/delete request histories on a real node for 4 limit/quota configurations: totals, per-shard maxima, quota refusals without side effects, each stored point found exactly once. Two specs use plans with MaxCollections 0 and 1.",
    "single server; the duplicate-id case is checked through the accounting equation of the statement only (ids unique per collection is the client's obligation)",
    "bounded-exhaustive input enumeration + explicit-state BFS over request histories vs reference", "DESIGN.md §4 C15"),
  "C16": (True, "seqx", "model_checking",
-   "Non-interference by lock-step differential execution: breadth-first search to depth 6 (thorough 8), de-duplicated on the complete inventory, over the product alphabet of two users (list; per collection create/get/delete/insert/insert3/update/search/filter-search/delete-point) on one real node through the assembled HTTP handler chain, for 15 user-id pairs (prefixes, key-concatenation collisions, '.', '..', space, percent, backslash, non-ASCII, trailing space, images of one another under name normalisations, escaped '../' collection ids); each user's sub-history runs alone on its own node and every response (status + canonical body) of the shared run must equal the solitary one; the shard-file inventory of the shared node must equal the union of the solitary ones. User-id pairs include glob patterns matching the other id and a pair in which each user has a collection named like the other user's id.",
+   "Non-interference by lock-step differential execution: breadth-first search to depth 6 (thorough 8), de-duplicated on the complete inventory, over the product alphabet of two users (list; per collection create/get/delete/insert/insert3/update/search/filter-search/delete-point) on one real node through the assembled HTTP handler chain, for 15 user-id pairs (prefixes, key-concatenation collisions, '.', '..', space, percent, backslash, non-ASCII, trailing space, images of one another under name normalisations, escaped '../' collection ids); each user's sub-history runs alone on its own node and every response (status + canonical body) of the shared run must equal the solitary one; the shard-file inventory of the shared node must equal the union of the solitary ones. User-id pairs include glob patterns matching the other id and a pair in which each user has a collection named like the other user's id. Collections carry a flat vector index (node-wide shared cache) with per-user vectors and the alphabet a flat search.",
    "whole requests are the unit of interleaving (node-database writes are serialised by bbolt); user ids without '/'",
    "explicit-state BFS over interleaved two-tenant histories of the real handlers with a differential (non-interference) oracle", "DESIGN.md §4 C16"),
  "C17": (True, "seqx", "model_checking",
-   "Every request history up to depth 3 (thorough 4) over {insert 2, insert 3, update existing+unknown, delete existing+unknown, delete all} on real in-process clusters of 1-3 nodes talking RPC over loopback, MaxShardPointCount {1,2}, 3 (thorough 8) placement seeds, each request entering through the next live node in rotation, with all servers up, with each server stopped (connections dropped) from each step on, and with all servers up but every cached RPC connection broken from each step on (verif hook VerifBreakRPCClients; 9.4k histories); plus one deployment with three full shards of 30 points; after every request, through every live node: each id found exactly once iff stored, filter search over limit x offset x sort (<= limit, no duplicates, results are stored points, globally sorted, exact when the limit covers the matches), flat search globally ordered by hybrid score, update/delete failure lists and their message.",
+   "Every request history up to depth 3 (thorough 4) over {insert 2, insert 3, update existing+unknown, delete existing+unknown, delete all} on real in-process clusters of 1-3 nodes talking RPC over loopback, MaxShardPointCount {1,2}, 3 (thorough 8) placement seeds, each request entering through the next live node in rotation, with all servers up, with each server stopped (connections dropped) from each step on, and with all servers up but every cached RPC connection broken from each step on (verif hook VerifBreakRPCClients; 9.4k histories); plus one deployment with three full shards of 30 points; after every request, through every live node: each id found exactly once iff stored, filter search over limit x offset x sort (<= limit, no duplicates, results are stored points, globally sorted, exact when the limit covers the matches), flat search globally ordered by hybrid score, update/delete failure lists and their message. The alphabet has a step that unloads every shard (what the idle timer does), so that the next request of whatever kind loads its shards; node root and shard root are different directories.",
    "ids unique per collection; nothing claimed when the user's routing node is down; a search may fail as a whole when a shard server is down; offset heuristic not claimed exact",
    "exhaustive enumeration of request histories x deployments x single-server faults on real nodes vs reference model", "DESIGN.md §4 C17"),
  "C14": (True, "faultx", "fault_enumeration",
